@@ -154,7 +154,7 @@ def _make_kwonly(code):
 
 
 EXC_KINDS = ("ValueError", "KeyError", "ZeroDivisionError", "RuntimeError0", "CustomError", "KwOnlyError", "FileNotFoundError",
-             "StopIteration")
+             "StopIteration", "TimeoutError")
 
 
 def make_exc(kind: str):
@@ -170,6 +170,8 @@ def make_exc(kind: str):
         return CustomError(7, "detail")
     if kind == "KwOnlyError":
         return KwOnlyError(code=3)
+    if kind == "TimeoutError":
+        return TimeoutError("upstream service timed out")  # == concurrent.futures.TimeoutError on 3.11+
     if kind == "StopIteration":
         return StopIteration("exhausted")  # e.g. next(it) without default inside the user function
     if kind == "FileNotFoundError":
@@ -304,6 +306,29 @@ class Fn:
         end = k.yield_point(f"ret:{name}")
         sim.calls.append(CallRec(name, args, start, end, tname, sim.attempt, False))
         return self.build(args)
+
+
+class Uncopyable:
+    """A valid argument value that can be neither deep-copied nor pickled (like a lock, an open file, a generator),
+    but compares by token so that separate runs can be compared."""
+
+    def __init__(self, token):
+        self.token = token
+
+    def __eq__(self, other):
+        return isinstance(other, Uncopyable) and other.token == self.token
+
+    def __hash__(self):
+        return hash(("Uncopyable", self.token))
+
+    def __repr__(self):
+        return f"Uncopyable({self.token!r})"
+
+    def __deepcopy__(self, memo):
+        raise TypeError("cannot copy an Uncopyable")
+
+    def __reduce__(self):
+        raise TypeError("cannot pickle an Uncopyable")
 
 
 def dict_picker(output, name):
